@@ -15,6 +15,8 @@
 //	ack <k>                              k-th outstanding envelope: MessageSent + Sent()
 //	disc <p>                             PeerDisconnected; envelopes in flight to p fail (Sent() without MessageSent)
 //	drain                                pop+ack until nothing is pending; prints the union of what each peer was sent
+//	wdrain                               the same through the REAL task worker: receive from Engine.Outbox() (taskWorker,
+//	                                     workSignal wake-ups) until nothing is pending; never mixed with pop/drain in a case
 package main
 
 import (
@@ -23,6 +25,7 @@ import (
 	"sort"
 	"strconv"
 	"strings"
+	"time"
 
 	bsmsg "github.com/ipfs/boxo/bitswap/message"
 	pb "github.com/ipfs/boxo/bitswap/message/pb"
@@ -190,12 +193,58 @@ func genUpgradeProfile(r *vh.Rand, id int) vh.Case {
 	return c
 }
 
+// genWorkerProfile: the engine's own comparator and the REAL task worker: messages and block additions (no
+// removals, so no message comes out empty), drained through Engine.Outbox() at random points.
+func genWorkerProfile(r *vh.Rand, id int) vh.Case {
+	c := vh.Case{ID: strconv.Itoa(id)}
+	limit := r.Range(2, 8)
+	ncid := r.Range(3, 8)
+	c.Ops = append(c.Ops, fmt.Sprintf("cfg %d %d %d %d %d 0 %d", limit, vh.Pick(r, []int{0, 5, 1024}), r.Intn(2), vh.Pick(r, []int{1, 20, 16384}), 0, r.Range(1, 16)))
+	for k := 0; k < ncid; k++ {
+		size := vh.Pick(r, []int{3, 8, 10, 20, 30})
+		if k == 0 && r.Chance(1, 4) {
+			size = 0 // at most one empty block: two would be the same CID
+		}
+		c.Ops = append(c.Ops, cidLine(k, "n", size))
+	}
+	for k := 0; k < ncid; k++ {
+		if r.Chance(1, 2) {
+			c.Ops = append(c.Ops, fmt.Sprintf("add %d", k))
+		}
+	}
+	for i, m := 0, r.Range(3, 10); i < m; i++ {
+		switch x := r.Intn(10); {
+		case x < 5:
+			var es []string
+			for _, k := range shuffled(r, ncid)[:r.Range(1, min(ncid, limit))] {
+				es = append(es, fmt.Sprintf("%d/%d/%s/%d/%d", k, r.Range(0, 4), vh.Pick(r, []string{"B", "H"}), b2i(r.Chance(1, 8)), r.Intn(2)))
+			}
+			c.Ops = append(c.Ops, fmt.Sprintf("msg %d %d %s", r.Intn(3), b2i(r.Chance(1, 5)), strings.Join(es, " ")))
+		case x < 7:
+			c.Ops = append(c.Ops, fmt.Sprintf("add %d", r.Intn(ncid)))
+		default:
+			c.Ops = append(c.Ops, "wdrain")
+		}
+	}
+	c.Ops = append(c.Ops, "wdrain")
+	return c
+}
+
+func b2i(b bool) int {
+	if b {
+		return 1
+	}
+	return 0
+}
+
 func genCase(r *vh.Rand, tier string, id int) vh.Case {
 	switch r.Intn(16) {
 	case 0, 1:
 		return genOverflowProfile(r, id)
 	case 2:
 		return genUpgradeProfile(r, id)
+	case 3:
+		return genWorkerProfile(r, id)
 	}
 	c := vh.Case{ID: strconv.Itoa(id)}
 	limit := r.Range(1, 4)
@@ -293,6 +342,14 @@ func genCase(r *vh.Rand, tier string, id int) vh.Case {
 				}
 				es = append(es, fmt.Sprintf("%d/%d/%s/%d/%d", ci, vh.Pick(r, prios), t, cancel, d))
 			}
+			if len(es) > 0 && r.Chance(1, 15) {
+				// the same CID twice in one message with the SAME cancel flag (the bsmsg decoder would merge them;
+				// a custom BitSwapMessage need not): still wire-shaped in the sense of Op.WF
+				x := strings.Split(es[r.Intn(len(es))], "/")
+				x[1] = strconv.Itoa(vh.Pick(r, prios))
+				x[2] = vh.Pick(r, []string{"B", "H"})
+				es = append(es, strings.Join(x, "/"))
+			}
 			c.Ops = append(c.Ops, strings.TrimSpace(fmt.Sprintf("msg %d %d %s", r.Intn(npeers), full, strings.Join(es, " "))))
 		case x < 58:
 			c.Ops = append(c.Ops, fmt.Sprintf("add %d", r.Intn(ncid)))
@@ -374,6 +431,7 @@ type st struct {
 	overflowed  bool
 	truncRisk   map[int]bool                          // the queue bound may have dropped pushed tasks of this peer
 	prevLedger  map[peer.ID]map[cid.Cid]vd.VerifEntry // ledger after the previous op
+	dangling    <-chan *vd.Envelope                   // outbox slot taken from the real worker, envelope not yet produced
 	lostRisk    map[[2]int]bool                       // block (re-)added while a DONT_HAVE sent in place of the block was still un-acked
 	fullCleared bool
 }
@@ -479,6 +537,21 @@ func (s *st) checkState() {
 			s.o.Fail("wantlist-accessor", "WantlistForPeer(%s) has %d entries, ledger map %d", p, len(got), len(m))
 		}
 	}
+	// the public accessors Peers / HasPeer agree with the per-peer map
+	pl := s.e.Peers()
+	if len(pl) != len(ps) {
+		s.o.Fail("peers-accessor", "Peers() lists %d peers, the ledger has %d", len(pl), len(ps))
+	}
+	for _, p := range pl {
+		if _, ok := ps[p]; !ok || !s.e.HasPeer(p) {
+			s.o.Fail("peers-accessor", "Peers() lists %s, ledger map present=%v HasPeer=%v", p, ok, s.e.HasPeer(p))
+		}
+	}
+	for pi := 0; pi < 3; pi++ {
+		if _, ok := ps[pid(pi)]; ok != s.e.HasPeer(pid(pi)) {
+			s.o.Fail("peers-accessor", "HasPeer(p%d)=%v but ledger map present=%v", pi, s.e.HasPeer(pid(pi)), ok)
+		}
+	}
 	for c, m := range cs {
 		for p, en := range m {
 			if e2, ok := ps[p][c]; !ok || e2 != en {
@@ -499,7 +572,7 @@ func (s *st) checkState() {
 func (s *st) checkVanished(f []string) {
 	now, _ := s.e.VerifLedger()
 	for p, m := range s.prevLedger {
-		allowed := f[0] == "ack" || f[0] == "drain" ||
+		allowed := f[0] == "ack" || f[0] == "drain" || f[0] == "wdrain" ||
 			((f[0] == "msg" || f[0] == "disc") && len(f) > 1 && pid(vh.Atoi(f[1])) == p)
 		if allowed {
 			continue
@@ -612,6 +685,55 @@ func (s *st) inOutstanding(p peer.ID, c cid.Cid) bool {
 	return false
 }
 
+func (s *st) anyPending() bool {
+	for p := 0; p < 3; p++ {
+		if pend, _ := s.e.VerifQueueTopics(pid(p)); len(pend) > 0 {
+			return true
+		}
+	}
+	return false
+}
+
+// workerNext takes the next envelope from the REAL task worker through Engine.Outbox(); nil when nothing is
+// pending. An outbox slot is only taken while tasks are pending, so the worker is parked at the outbox (not inside
+// nextEnvelope) between ops and cannot pop behind the harness's back.
+func (s *st) workerNext() *vd.Envelope {
+	for {
+		if !s.anyPending() && s.dangling == nil {
+			return nil
+		}
+		next := s.dangling
+		s.dangling = nil
+		if next == nil {
+			select {
+			case next = <-s.e.Outbox():
+			case <-time.After(5 * time.Second):
+				s.o.Fail("worker-not-at-outbox", "tasks are pending but no task worker offered an outbox slot within 5s")
+				return nil
+			}
+		}
+		wait := 5 * time.Second
+		if !s.anyPending() {
+			wait = 200 * time.Millisecond
+		}
+		select {
+		case env, ok := <-next:
+			if !ok || env == nil {
+				continue
+			}
+			s.outst = append(s.outst, outEnv{s.nextID, env})
+			s.nextID++
+			return env
+		case <-time.After(wait):
+			s.dangling = next
+			if s.anyPending() {
+				s.o.Fail("worker-stuck-with-pending-tasks", "tasks are pending, the worker holds an outbox slot, and no envelope came within 5s (lost wake-up?)")
+			}
+			return nil
+		}
+	}
+}
+
 func (s *st) pop() (int, *vd.Envelope) {
 	env := s.e.VerifNextEnvelope()
 	if env == nil {
@@ -708,6 +830,9 @@ func exec(c vh.Case, o *vh.Out) {
 		}
 		vd.SetTieKey(func(c cid.Cid) int { return (s.idx[c]*tiemul + 3) % 17 })
 		s.e = vd.NewEngine(context.Background(), s.bs, nopTagger{}, peer.ID("self"), opts...)
+		if tiemul%2 == 1 {
+			s.e.SetSendDontHaves(sdh == 1) // the setter instead of (on top of) the option: same value
+		}
 		return true
 	}
 	for _, line := range c.Ops {
@@ -909,14 +1034,19 @@ func exec(c vh.Case, o *vh.Out) {
 			s.want[p] = map[int]bool{}
 			s.truncRisk[p] = false
 			o.Kind("disc")
-		case "drain":
+		case "drain", "wdrain":
 			got := map[int]*sent{}
 			for guard := 0; ; guard++ {
 				if guard > 10000 {
 					o.Fail("drain-does-not-terminate", "more than 10000 envelopes in one drain")
 					break
 				}
-				_, env := s.pop()
+				var env *vd.Envelope
+				if f[0] == "wdrain" {
+					env = s.workerNext()
+				} else {
+					_, env = s.pop()
+				}
 				if env == nil {
 					break
 				}
@@ -960,7 +1090,7 @@ func exec(c vh.Case, o *vh.Out) {
 					if _, ok := m[c]; !ok {
 						continue
 					}
-					if !s.has(ci) || s.pool[ci].size == 0 || s.inOutstanding(p, c) {
+					if !s.has(ci) || s.inOutstanding(p, c) {
 						continue
 					}
 					sig := "accepted-want-unanswered"
@@ -973,7 +1103,7 @@ func exec(c vh.Case, o *vh.Out) {
 				}
 			}
 			res = "drained " + strings.Join(parts, " ; ")
-			o.Kind("drain")
+			o.Kind(f[0])
 		default:
 			res = "bad-op"
 		}
@@ -1012,7 +1142,7 @@ func (s *st) checkOverflow(p int, full bool, before []wl.Entry, entries []bsmsg.
 			dup = true
 		}
 	}
-	hasBlk := func(ci int) bool { return s.has(ci) && s.pool[ci].size > 0 }
+	hasBlk := func(ci int) bool { return s.has(ci) }
 	var accepted, rejected []wl.Entry
 	for _, en := range entries {
 		ci := s.idx[en.Cid]
